@@ -395,7 +395,8 @@ PROBES = {
             'fault_F3_fired', 'fault_F4_fired'],
     'C04': ['c04_write_judged', 'c04_callback_set_judged', 'c04_write_beyond_input_domain_judged', 'c04_arith_value_not_exact_not_judged', 'failed_write_dest_kept', 'probe_ovf_and_udf_in_one_write',
             'probe_flag_raising_write', 'probe_inaccuracy_propagated', 'probe_reset_of_raised_flag',
-            'register_write', 'fault_F3_fired', 'fault_F4_fired', 'fault_F8_fired', 'c04_selfwrite_judged'],
+            'register_write', 'fault_F3_fired', 'fault_F4_fired', 'fault_F8_fired', 'c04_selfwrite_judged',
+            'fault_F8_reset_fired', 'c04_selfreset_judged', 'c04_rejected_before_store_judged'],
     'C10': ['c10_hop_judged', 'c10_hop_inexact_or_out_of_range', 'c10_hop_all_codes_of_source_format', 'c10_hop_out_of_domain', 'c10_route_resize', 'c10_route_resize_dtype',
             'c10_route_like_kw', 'c10_route_like_method', 'c10_route_ctor_from', 'c10_route_set_from_call',
             'c10_route_set_from_set_val', 'c10_route_equal', 'c10_route_setitem_from', 'self_conversion',
